@@ -132,11 +132,12 @@ def run(ctx):
         for nm in ('call_nowait', 'send_content_header', 'send_content_body', 'set_return_handler', 'set_pub_confirm_handler'):
             root = H0 + nm
             ctx.fn(root)
-            seen = ctx.cg.reachable([root])
+            closure = H0 + 'send::{closure#0}'
+            seen = ctx.cg.reachable([root], blocked=(closure,))
             paths = []
             for f in seen:
                 if RECV in ctx.cg.edges.get(f, ()):
                     paths.append(ctx.cg.path_to(seen, f))
-            ok = all(any(x.endswith('IoLoopHandle::send::{closure#0}') for x in p) for p in paths)
+            ok = not paths
             r.check(nm, ok, ctx.site(root), built=paths, expected='no Receiver::recv reachable except through the failed-send closure of IoLoopHandle::send',
                     why='a nowait operation that waits for a reply the server never sends would hang')
